@@ -116,6 +116,29 @@ func c19NoPanic(r *h.R, name string, f func()) bool {
 
 var c19IdentityEd = append([]byte{1}, make([]byte, 31)...)
 
+// c19Kept judges a receiver after a FAILED call where the documentation does
+// not say what becomes of it: untouched, or the type's neutral state (identity,
+// zero) - "on failure leaves its receiver in the documented neutral state".
+// What is ruled out is a receiver that was partly overwritten with the
+// rejected input.
+func c19Kept(after, before []byte, neutral ...[]byte) bool {
+	if bytes.Equal(after, before) {
+		return true
+	}
+	for _, n := range neutral {
+		if bytes.Equal(after, n) {
+			return true
+		}
+	}
+	return false
+}
+
+var (
+	c19Zero32  = make([]byte, 32)
+	c19Zero64  = make([]byte, 64)
+	c19EdIdent = append([]byte{1}, make([]byte, 31)...)
+)
+
 func c19EdBytes(p *curve.EdwardsPoint) []byte {
 	b, _ := p.MarshalBinary()
 	return b
@@ -129,11 +152,15 @@ func c19DirtyRist() *curve.RistrettoPoint {
 	return curve.NewRistrettoPoint().Set(curve.RISTRETTO_BASEPOINT_POINT)
 }
 
-func c19Options(n int, ctxSrc []byte) (*ed25519.Options, bool) {
-	// returns options and whether a configuration panic is documented for them
-	// (message-length condition for ph is handled by the caller)
-	o := &ed25519.Options{}
-	docPanic := false
+// c19Options returns options and how an invalid configuration must be
+// signalled.  must: the documentation promises a panic ("will panic if ...
+// len(opts.Context) is greater than ContextMaxSize"; the message-length
+// condition for ph is handled by the caller).  may: the configuration is
+// invalid (incompatible flag pair, unsupported hash) but the documentation does
+// not say HOW it is refused: a panic and a plain false are both acceptable, an
+// acceptance is not.
+func c19Options(n int, ctxSrc []byte) (o *ed25519.Options, must, may bool) {
+	o = &ed25519.Options{}
 	if n >= 12 {
 		// every one of the 32 VerifyOptions flag sets (presets cover only four)
 		f := (n - 12) % 32
@@ -142,7 +169,7 @@ func c19Options(n int, ctxSrc []byte) (*ed25519.Options, bool) {
 		if (n-12)/32%2 == 1 {
 			o.Context = "c19"
 		}
-		return o, o.Verify.AllowNonCanonicalR && o.Verify.CofactorlessVerify
+		return o, false, o.Verify.AllowNonCanonicalR && o.Verify.CofactorlessVerify
 	}
 	switch n % 12 {
 	case 0:
@@ -158,15 +185,15 @@ func c19Options(n int, ctxSrc []byte) (*ed25519.Options, bool) {
 		o.Context = string(bytes.Repeat([]byte{'a'}, 255))
 	case 6:
 		o.Context = string(bytes.Repeat([]byte{'a'}, 256))
-		docPanic = true
+		must = true
 	case 7:
 		o.Hash = crypto.SHA512
 	case 8:
 		o.Hash = crypto.SHA256
-		docPanic = true
+		may = true
 	case 9:
 		o.Verify = &ed25519.VerifyOptions{AllowNonCanonicalR: true, CofactorlessVerify: true}
-		docPanic = true
+		may = true
 	case 10:
 		o.Verify = &ed25519.VerifyOptions{}
 	case 11:
@@ -178,7 +205,21 @@ func c19Options(n int, ctxSrc []byte) (*ed25519.Options, bool) {
 			}
 		}
 	}
-	return o, docPanic
+	return o, must, may
+}
+
+// c19JudgePanic applies the rule above to one call; proceed reports that the
+// call ran under a valid configuration and returned normally.
+func c19JudgePanic(r *h.R, name string, panicked bool, pv interface{}, ok, must, may bool, detail string) (proceed bool) {
+	switch {
+	case panicked && !must && !may:
+		r.Fail(name+":panic-not-as-documented", "%s panic=%v", detail, pv)
+	case !panicked && must:
+		r.Fail(name+":documented-panic-missing", "%s returned %v", detail, ok)
+	case !panicked && may && ok:
+		r.Fail(name+":accepted-under-invalid-configuration", "%s", detail)
+	}
+	return !panicked && !must && !may
 }
 
 func c19ValidEdSig(seed uint64) [3][]byte {
@@ -201,7 +242,7 @@ func init() {
 					if ok || !retNil {
 						r.Fail(name+":accepted-wrong-length", "len=%d", len(a[0]))
 					}
-					if !bytes.Equal(after, marker) {
+					if !c19Kept(after, marker, c19Zero32, c19EdIdent) {
 						r.Fail(name+":receiver-modified-on-error", "len=%d after=%x", len(a[0]), after)
 					}
 				} else if !ok || !bytes.Equal(after, a[0]) {
@@ -341,7 +382,7 @@ func init() {
 				r.Fail(name+":wrong-decision", "in=%x err=%v", a[0], err)
 				return
 			}
-			if err != nil && !bytes.Equal(c19EdBytes(p), before) {
+			if err != nil && !c19Kept(c19EdBytes(p), before, c19EdIdent) {
 				r.Fail(name+":receiver-modified-on-error", "in=%x", a[0])
 			}
 			if err == nil && !bytes.Equal(c19EdBytes(p), di.P.Encode()) {
@@ -366,7 +407,7 @@ func init() {
 				return
 			}
 			after, _ := p.MarshalBinary()
-			if err != nil && !bytes.Equal(after, before) {
+			if err != nil && !c19Kept(after, before, c19Zero32) {
 				r.Fail(name+":receiver-modified-on-error", "in=%x", a[0])
 			}
 		})
@@ -382,7 +423,7 @@ func init() {
 				return
 			}
 			after, _ := p.MarshalBinary()
-			if err != nil && !bytes.Equal(after, before) {
+			if err != nil && !c19Kept(after, before, c19Zero32) {
 				r.Fail(name+":receiver-modified-on-error", "len=%d", len(a[0]))
 			}
 			if err == nil && !bytes.Equal(after, ref.RistEncode(ref.RistFromUniform(a[0]))) {
@@ -406,7 +447,7 @@ func init() {
 				r.Fail(name+":wrong-decision", "u=%x sign=%d err=%v want-ok=%v", a[0], c.N&1, err, ok)
 				return
 			}
-			if err != nil && !bytes.Equal(c19EdBytes(p), before) {
+			if err != nil && !c19Kept(c19EdBytes(p), before, c19EdIdent) {
 				r.Fail(name+":receiver-modified-on-error", "u=%x", a[0])
 			}
 			if err == nil && !bytes.Equal(c19EdBytes(p), want.Encode()) {
@@ -438,7 +479,7 @@ func init() {
 				}
 				var out [32]byte
 				_ = s.ToBytes(out[:])
-				if err != nil && !bytes.Equal(out[:], marker) {
+				if err != nil && !c19Kept(out[:], marker, c19Zero32) {
 					r.Fail(name+":receiver-modified-on-error", "in=%x", a[0])
 				}
 			})
@@ -523,18 +564,19 @@ func init() {
 	// ------------------------------------------------------------------ Ed25519
 	R["ed25519.VerifyWithOptions"] = c19Row{Nominal: [3]int{32, -2, 64}, NMax: 75, Valid: c19ValidEdSig, Run: func(c c19Case, a [3][]byte, r *h.R) {
 		name := "ed25519.VerifyWithOptions"
-		opts, docPanic := c19Options(c.N, a[1])
+		opts, must, may := c19Options(c.N, a[1])
 		if opts.Hash == crypto.SHA512 && len(a[1]) != 64 {
-			docPanic = true
+			must = true
 		}
 		if len(a[0]) != 32 {
-			docPanic = true
+			must = true
 		}
 		var ok bool
 		p, v := h.Catch(func() { ok = ed25519.VerifyWithOptions(a[0], a[1], a[2], opts) })
-		if p != docPanic {
-			r.Fail(name+":panic-not-as-documented", "pk-len=%d msg-len=%d sig-len=%d opt=%d panicked=%v (%v) documented=%v", len(a[0]), len(a[1]), len(a[2]), c.N, p, v, docPanic)
-			return
+		if !c19JudgePanic(r, name, p, v, ok, must, may, fmt.Sprintf("pk-len=%d msg-len=%d sig-len=%d opt=%d", len(a[0]), len(a[1]), len(a[2]), c.N)) {
+			if r.Failed() {
+				return
+			}
 		}
 		if !p && ok && len(a[2]) != 64 {
 			r.Fail(name+":accepted-wrong-length-signature", "sig-len=%d", len(a[2]))
@@ -577,14 +619,14 @@ func init() {
 		if cy := epk.CompressedY(); !bytes.Equal(cy[:], a[0]) {
 			r.Fail(name+":CompressedY-mismatch", "pk=%x got=%x", a[0], cy[:])
 		}
-		opts, docPanic := c19Options(c.N, a[1])
+		opts, must, may := c19Options(c.N, a[1])
 		if opts.Hash == crypto.SHA512 && len(a[1]) != 64 {
-			docPanic = true
+			must = true
 		}
 		var ok, okPlain bool
 		p, v := h.Catch(func() { ok = ed25519.VerifyExpandedWithOptions(epk, a[1], a[2], opts) })
-		if p != docPanic {
-			r.Fail("ed25519.VerifyExpandedWithOptions:panic-not-as-documented", "opt=%d panicked=%v (%v)", c.N, p, v)
+		c19JudgePanic(r, "ed25519.VerifyExpandedWithOptions", p, v, ok, must, may, fmt.Sprintf("opt=%d", c.N))
+		if r.Failed() {
 			return
 		}
 		if !p {
@@ -596,7 +638,8 @@ func init() {
 	}}
 	R["ed25519.BatchVerifier"] = c19Row{Nominal: [3]int{32, -2, 64}, NMax: 303, Valid: c19ValidEdSig, Run: func(c c19Case, a [3][]byte, r *h.R) {
 		name := "ed25519.BatchVerifier"
-		opts, cfgInvalid := c19Options(c.N%76, a[1])
+		opts, must, may := c19Options(c.N%76, a[1])
+		cfgInvalid := must || may
 		if opts.Hash == crypto.SHA512 && len(a[1]) != 64 {
 			cfgInvalid = true
 		}
@@ -650,11 +693,10 @@ func init() {
 	}}
 	R["cache.Verifier"] = c19Row{Nominal: [3]int{32, -2, 64}, NMax: 75, Valid: c19ValidEdSig, Run: func(c c19Case, a [3][]byte, r *h.R) {
 		name := "cache.Verifier"
-		opts, docPanic := c19Options(c.N, a[1])
+		opts, must, may := c19Options(c.N, a[1])
 		if opts.Hash == crypto.SHA512 && len(a[1]) != 64 {
-			docPanic = true
+			must = true
 		}
-		decodable := len(a[0]) == 32 && ref.Decode(a[0]).OK
 		var plain bool
 		if p, _ := h.Catch(func() { plain = ed25519.VerifyWithOptions(a[0], a[1], a[2], opts) }); p {
 			plain = false
@@ -663,10 +705,16 @@ func init() {
 		c19NoPanic(r, name+".AddPublicKey", func() { cv.AddPublicKey(a[0]) })
 		var ok bool
 		p, v := h.Catch(func() { ok = cv.VerifyWithOptions(a[0], a[1], a[2], opts) })
-		// option panics are only reachable once the key has been accepted
-		if p != (docPanic && decodable) {
-			r.Fail(name+".VerifyWithOptions:panic-not-as-documented", "opt=%d decodable=%v panicked=%v (%v)", c.N, decodable, p, v)
+		// the caching front end documents no panics of its own: it may mirror the
+		// documented ones of VerifyWithOptions (before or after looking at the
+		// key), it must never panic otherwise and never accept what the plain
+		// entry point refuses
+		if p && !must && !may && len(a[0]) == 32 {
+			r.Fail(name+".VerifyWithOptions:panic-not-as-documented", "opt=%d panicked=%v (%v)", c.N, p, v)
 			return
+		}
+		if p && len(a[0]) != 32 {
+			r.Class("cache:mirrors-the-key-length-panic")
 		}
 		if !p && ok != plain {
 			r.Fail(name+".VerifyWithOptions:disagrees-with-plain", "pk=%x opt=%d cached=%v plain=%v", a[0], c.N, ok, plain)
@@ -861,7 +909,7 @@ func init() {
 			if err == nil && !bytes.Equal(out, a[0]) {
 				r.Fail(name+":roundtrip", "in=%x out=%x", a[0], out)
 			}
-			if err != nil && !bytes.Equal(out, before) {
+			if err != nil && !c19Kept(out, before, c19Zero64) {
 				r.Fail(name+":receiver-modified-on-error", "in=%x", a[0])
 			}
 			s2, err2 := sr25519.NewSecretKeyFromBytes(a[0])
@@ -884,7 +932,7 @@ func init() {
 			if (err == nil) != (len(a[0]) == 32) {
 				r.Fail(name+":wrong-length-decision", "len=%d", len(a[0]))
 			}
-			if err != nil && !bytes.Equal(msk[:], bytes.Repeat([]byte{0x5a}, 32)) {
+			if err != nil && !c19Kept(msk[:], bytes.Repeat([]byte{0x5a}, 32), c19Zero32) {
 				r.Fail(name+":receiver-modified-on-error", "")
 			}
 			m2, err2 := sr25519.NewMiniSecretKeyFromBytes(a[0])
